@@ -34,6 +34,9 @@ Lemma nth_error_app_len : forall {A} (pre : list A) x post,
   nth_error (pre ++ x :: post) (length pre) = Some x.
 Proof. induction pre as [|h pre IH]; intros; [reflexivity|]. cbn [app length nth_error]. apply IH. Qed.
 
+Lemma app_cons_assoc : forall {A} (pre : list A) x l, pre ++ x :: l = (pre ++ [x]) ++ l.
+Proof. intros. rewrite <- app_assoc. reflexivity. Qed.
+
 Section Sim.
 Variable V : Type.
 Variable sh : shape.
@@ -166,15 +169,6 @@ Qed.
 Definition later_entries (later : list (page V)) : list entry := concat (map fst later).
 Definition later_vals (later : list (page V)) : list V := concat (map snd later).
 
-(* what the read of the later pages must do when the spec FSM is in state `cur`, the row `cur`
-   (so far) sits in the last written slot and the remaining slots are still empty *)
-Definition Pstart (later : list (page V)) : Prop :=
-  forall (pre : arr V) cur out,
-    asm sh cur (later_entries later) (later_vals later) = Some out ->
-    pages_aligned sh later = true -> good_split sh later = true ->
-    read_col_v1 null md (pre ++ cur :: repeat None (length out - 1)) (S (length pre)) later
-    = AOk (pre ++ out).
-
 Lemma asm_length : forall es cur vs out, asm (V:=V) sh cur es vs = Some out -> (1 <= length out)%nat.
 Proof.
   induction es as [|[r d] t IH]; intros cur vs out H; cbn [asm] in H.
@@ -186,14 +180,30 @@ Proof.
       destruct (cont_row sh cur d vs) as [[c vs']|]; [|discriminate]. eauto.
 Qed.
 
+(* ---------- walking through the pages that satisfy good_page, for any claim Q about the final
+   result: Q res expected.  Instantiated with  res = AOk expected  (the theorem) and with
+   res <> AOk expected  (tightness of the guard: a later bad page spoils the result). ---------- *)
+Section Gen.
+Variable Q : ares (arr V) -> arr V -> Prop.
+Variable Hyp : list (page V) -> Prop.
+
+(* what is claimed for the read of the later pages when the spec FSM is in state `cur`, the row
+   `cur` (so far) sits in the last written slot and the remaining slots are still empty *)
+Definition PstartG (later : list (page V)) : Prop :=
+  forall (pre : arr V) cur out,
+    asm sh cur (later_entries later) (later_vals later) = Some out ->
+    pages_aligned sh later = true -> Hyp later ->
+    Q (read_col_v1 null md (pre ++ cur :: repeat None (length out - 1)) (S (length pre)) later)
+      (pre ++ out).
+
 (* inside a page, after the first row of the page has begun (started = True) *)
-Lemma in_page_started : forall later, Pstart later ->
+Lemma in_page_started : forall later, PstartG later ->
   forall es i part hn vali lv (pre : arr V) cur out,
     i = length pre -> cell hn part = cur ->
     length lv = count_md md es ->
     asm sh cur (es ++ later_entries later) (lv ++ later_vals later) = Some out ->
-    pages_aligned sh later = true -> good_split sh later = true ->
-    run_from (mkSt i part true hn vali lv (pre ++ repeat None (length out))) es later = AOk (pre ++ out).
+    pages_aligned sh later = true -> Hyp later ->
+    Q (run_from (mkSt i part true hn vali lv (pre ++ repeat None (length out))) es later) (pre ++ out).
 Proof.
   intros later PS. induction es as [|[r d] es IH]; intros i part hn vali lv pre cur out Hi Hc Hl Ha Al Gd.
   - (* end of the page: write the row in progress, go on with the next page *)
@@ -219,8 +229,8 @@ Proof.
       rewrite E1. subst vs'.
       replace (pre ++ cur :: repeat None (length out')) with ((pre ++ [cur]) ++ repeat None (length out'))
         by (rewrite <- app_assoc; reflexivity).
-      rewrite (IH (S (length pre)) part' hn' vali' lv' (pre ++ [cur]) c out').
-      * rewrite <- app_assoc. reflexivity.
+      replace (pre ++ cur :: out') with ((pre ++ [cur]) ++ out') by (rewrite <- app_assoc; reflexivity).
+      apply (IH (S (length pre)) part' hn' vali' lv' (pre ++ [cur]) c out').
       * rewrite app_length. cbn. lia.
       * exact E2.
       * cbn [count_md] in Hl. destruct (d =? md); lia.
@@ -243,22 +253,24 @@ Proof.
 Qed.
 
 (* at the start of a page that continues a row (started = False): the pending part *)
-Lemma in_page_cont : forall later, Pstart later ->
+Lemma in_page_cont : forall later, PstartG later ->
   forall es part hn vali lv (pre : arr V) l0 out,
     length lv = count_md md es ->
     asm sh (Some (l0 ++ rev part)) (es ++ later_entries later) (lv ++ later_vals later) = Some out ->
     good_cont md vali es (match later with [] => true | _ => false end) = true ->
-    pages_aligned sh later = true -> good_split sh later = true ->
-    run_from (mkSt (S (length pre)) part false hn vali lv (pre ++ Some l0 :: repeat None (length out - 1))) es later
-    = AOk (pre ++ out).
+    pages_aligned sh later = true -> Hyp later ->
+    Q (run_from (mkSt (S (length pre)) part false hn vali lv (pre ++ Some l0 :: repeat None (length out - 1))) es later)
+      (pre ++ out).
 Proof.
   intros later PS. induction es as [|[r d] es IH]; intros part hn vali lv pre l0 out Hl Ha Gc Al Gd.
   - (* the page held only the continuation: it must be the last one *)
     cbn [good_cont] in Gc. destruct later; [|discriminate].
-    destruct lv; [|discriminate]. cbn [app later_entries later_vals map concat asm] in Ha.
-    injection Ha as <-.
+    destruct lv; [|discriminate]. cbn [app] in Ha.
+    specialize (PS pre (Some (l0 ++ rev part)) out Ha Al Gd).
+    cbn [later_entries later_vals map concat asm] in Ha. injection Ha as <-.
     unfold run_from. cbn [run_steps]. unfold finish_page. cbn [s_started s_arr s_i s_part length Nat.sub repeat].
-    rewrite extend_prev_app. reflexivity.
+    rewrite extend_prev_app. cbn [read_col_v1].
+    cbn [read_col_v1 length Nat.sub repeat] in PS. exact PS.
   - rewrite run_from_cons. cbn [app asm] in Ha. cbn [good_cont] in Gc. unfold step.
     destruct (r =? 0) eqn:R0.
     + (* first new row of the page: vali > 0, the pending part goes to the previous row *)
@@ -273,11 +285,8 @@ Proof.
                  (pre ++ Some (l0 ++ rev part) :: repeat None (length out')) Eo Hv)
         as (part' & hn' & vali' & lv' & E1 & E2 & E3 & E4).
       rewrite E1. subst vs'.
-      replace (pre ++ Some (l0 ++ rev part) :: repeat None (length out'))
-        with ((pre ++ [Some (l0 ++ rev part)]) ++ repeat None (length out'))
-        by (rewrite <- app_assoc; reflexivity).
-      rewrite (in_page_started later PS es (S (length pre)) part' hn' vali' lv' (pre ++ [Some (l0 ++ rev part)]) c out').
-      * rewrite <- app_assoc. reflexivity.
+      rewrite (app_cons_assoc pre _ (repeat None (length out'))). rewrite (app_cons_assoc pre _ out').
+      apply (in_page_started later PS es (S (length pre)) part' hn' vali' lv' (pre ++ [Some (l0 ++ rev part)]) c out').
       * rewrite app_length. cbn. lia.
       * exact E2.
       * cbn [count_md] in Hl. destruct (d =? md); lia.
@@ -297,51 +306,69 @@ Proof.
       * cbn [rev]. rewrite app_assoc. exact Ha.
 Qed.
 
-(* every later page is read correctly *)
-Lemma start_all : forall later, Pstart later.
+(* one page that satisfies good_page, then the claim for the pages after it *)
+Lemma through_good_page : forall p t, PstartG t ->
+  forall (pre : arr V) cur out,
+    asm sh cur (later_entries (p :: t)) (later_vals (p :: t)) = Some out ->
+    page_aligned sh p = true -> pages_aligned sh t = true ->
+    good_page sh (match t with [] => true | _ => false end) p = true -> Hyp t ->
+    Q (read_col_v1 null md (pre ++ cur :: repeat None (length out - 1)) (S (length pre)) (p :: t))
+      (pre ++ out).
 Proof.
-  induction later as [|p t IH]; unfold Pstart; intros pre cur out Ha Al Gd.
+  intros p t IH pre cur out Ha Ap Al Gp Gd.
+  rewrite read_col_v1_cons.
+  unfold later_entries, later_vals in Ha. cbn [map concat] in Ha.
+  fold (later_entries t) in Ha. fold (later_vals t) in Ha.
+  unfold page_aligned in Ap. apply Nat.eqb_eq in Ap.
+  unfold good_page in Gp. destruct p as [es lv]. cbn [fst snd] in *.
+  destruct es as [|[r d] es]; [discriminate|].
+  destruct (r =? 0) eqn:R0.
+  - (* the page starts a row *)
+    rewrite run_from_cons. unfold step. rewrite R0. unfold new_row.
+    cbn [s_started s_vali s_i s_part s_have_null s_vals s_arr]. change (0 <? 0) with false. cbv iota.
+    cbn [app asm] in Ha. rewrite R0 in Ha.
+    destruct (open_row sh d (lv ++ later_vals t)) as [[c vs']|] eqn:Eo; [|discriminate].
+    destruct (asm sh c (es ++ later_entries t) vs') as [out'|] eqn:Ea; [|discriminate].
+    injection Ha as <-. cbn [length Nat.sub]. rewrite Nat.sub_0_r.
+    assert (Hv : (d =? md) = true -> lv <> []).
+    { intros E. cbn [count_md] in Ap. rewrite E in Ap. destruct lv; [discriminate|discriminate]. }
+    destruct (add_level_open d lv _ c vs' (S (length pre)) true false 0
+               (pre ++ cur :: repeat None (length out')) Eo Hv)
+      as (part' & hn' & vali' & lv' & E1 & E2 & E3 & E4).
+    rewrite E1. subst vs'.
+    replace (pre ++ cur :: repeat None (length out')) with ((pre ++ [cur]) ++ repeat None (length out'))
+      by (rewrite <- app_assoc; reflexivity).
+    replace (pre ++ cur :: out') with ((pre ++ [cur]) ++ out') by (rewrite <- app_assoc; reflexivity).
+    apply (in_page_started t IH es (S (length pre)) part' hn' vali' lv' (pre ++ [cur]) c out').
+    + rewrite app_length. cbn. lia.
+    + exact E2.
+    + cbn [count_md] in Ap. destruct (d =? md); lia.
+    + exact Ea.
+    + exact Al.
+    + exact Gd.
+  - (* the page continues the row in the last written slot *)
+    cbn [orb] in Gp.
+    assert (exists l0, cur = Some l0) as [l0 ->].
+    { cbn [app asm] in Ha. rewrite R0 in Ha. destruct (r =? 1); [|discriminate].
+      destruct cur as [l0|]; [eauto|discriminate]. }
+    apply (in_page_cont t IH ((r, d) :: es) [] false 0 lv pre l0 out); try assumption.
+    cbn [rev]. rewrite app_nil_r. exact Ha.
+Qed.
+
+End Gen.
+
+(* ---------- positive instance: every later page is read correctly ---------- *)
+Definition Qeq (res : ares (arr V)) (exp : arr V) : Prop := res = AOk exp.
+Definition Hgood (later : list (page V)) : Prop := good_split sh later = true.
+
+Lemma start_all : forall later, PstartG Qeq Hgood later.
+Proof.
+  induction later as [|p t IH]; unfold PstartG; intros pre cur out Ha Al Gd.
   - cbn [later_entries later_vals map concat asm] in Ha. injection Ha as <-.
-    cbn [read_col_v1 length Nat.sub repeat]. reflexivity.
-  - rewrite read_col_v1_cons.
-    cbn [pages_aligned forallb] in Al. apply andb_prop in Al. destruct Al as [Ap Al].
-    cbn [good_split] in Gd. apply andb_prop in Gd. destruct Gd as [Gp Gd].
-    unfold later_entries, later_vals in Ha. cbn [map concat] in Ha.
-    fold (later_entries t) in Ha. fold (later_vals t) in Ha.
-    unfold page_aligned in Ap. apply Nat.eqb_eq in Ap.
-    unfold good_page in Gp. destruct p as [es lv]. cbn [fst snd] in *.
-    destruct es as [|[r d] es]; [discriminate|].
-    destruct (r =? 0) eqn:R0.
-    + (* the page starts a row *)
-      rewrite run_from_cons. unfold step. rewrite R0. unfold new_row.
-      cbn [s_started s_vali s_i s_part s_have_null s_vals s_arr]. change (0 <? 0) with false. cbv iota.
-      cbn [app asm] in Ha. rewrite R0 in Ha.
-      destruct (open_row sh d (lv ++ later_vals t)) as [[c vs']|] eqn:Eo; [|discriminate].
-      destruct (asm sh c (es ++ later_entries t) vs') as [out'|] eqn:Ea; [|discriminate].
-      injection Ha as <-. cbn [length Nat.sub]. rewrite Nat.sub_0_r.
-      assert (Hv : (d =? md) = true -> lv <> []).
-      { intros E. cbn [count_md] in Ap. rewrite E in Ap. destruct lv; [discriminate|discriminate]. }
-      destruct (add_level_open d lv _ c vs' (S (length pre)) true false 0
-                 (pre ++ cur :: repeat None (length out')) Eo Hv)
-        as (part' & hn' & vali' & lv' & E1 & E2 & E3 & E4).
-      rewrite E1. subst vs'.
-      replace (pre ++ cur :: repeat None (length out')) with ((pre ++ [cur]) ++ repeat None (length out'))
-        by (rewrite <- app_assoc; reflexivity).
-      rewrite (in_page_started t IH es (S (length pre)) part' hn' vali' lv' (pre ++ [cur]) c out').
-      * rewrite <- app_assoc. reflexivity.
-      * rewrite app_length. cbn. lia.
-      * exact E2.
-      * cbn [count_md] in Ap. destruct (d =? md); lia.
-      * exact Ea.
-      * exact Al.
-      * exact Gd.
-    + (* the page continues the row in the last written slot *)
-      cbn [orb] in Gp.
-      assert (exists l0, cur = Some l0) as [l0 ->].
-      { cbn [app asm] in Ha. rewrite R0 in Ha. destruct (r =? 1); [|discriminate].
-        destruct cur as [l0|]; [eauto|discriminate]. }
-      apply (in_page_cont t IH ((r, d) :: es) [] false 0 lv pre l0 out); try assumption.
-      cbn [rev]. rewrite app_nil_r. exact Ha.
+    unfold Qeq. cbn [read_col_v1 length Nat.sub repeat]. reflexivity.
+  - cbn [pages_aligned forallb] in Al. apply andb_prop in Al. destruct Al as [Ap Al].
+    unfold Hgood in Gd. cbn [good_split] in Gd. apply andb_prop in Gd. destruct Gd as [Gp Gd].
+    apply (through_good_page Qeq Hgood p t IH); assumption.
 Qed.
 
 (* ---------- the page-split theorem ---------- *)
@@ -376,7 +403,7 @@ Proof.
       as (part' & hn' & vali' & lv' & E1 & E2 & E3 & E4).
     rewrite E1. subst vs'. unfold empty_arr.
     change (repeat None (length rows)) with ([] ++ repeat (@None (list (elem V))) (length rows)).
-    apply (in_page_started t (start_all t) pes 0%nat part' hn' vali' lv' [] c rows); try assumption.
+    apply (in_page_started Qeq Hgood t (start_all t) pes 0%nat part' hn' vali' lv' [] c rows); try assumption.
     + reflexivity.
     + cbn [count_md] in Ap. destruct (d =? md); lia.
 Qed.
